@@ -162,7 +162,7 @@ static const char *const NSPOOL[] = { "jabber:client", "urn:xmpp:sm:3", "http://
 static const char *const NSADV[] = { "u\"><evil/></NAME><NAME xmlns=\"u", "u\" injected=\"1", "u\"/><evil/><y k=\"", "a&b", "a<b", "a&amp;b", "\"", "u\"><evil/>", "&lt;" };
 
 struct Gen {
-    Rng &r; bool advNs; int nodes = 0, maxDepth = 0; bool hasAdvNs = false, legal = true;
+    Rng &r; int nodes = 0, maxDepth = 0; bool legal = true;
     QString payload(const char *ctx) { QString s = genStr(r); strStats(s, ctx); if (!allLegal(s)) legal = false; return s; }
     Nd elem(int depth) {
         Nd n; nodes++; maxDepth = std::max(maxDepth, depth);
@@ -170,9 +170,7 @@ struct Gen {
         n.style = depth >= 4 ? 1 + r.below(6) : (r.below(3) ? 0 : 1 + r.below(6));
         // an empty element is only completed by the next write: qxmpp never ends a stanza with one, nor do we
         if (depth == 0 && (n.style == 2 || n.style == 3)) n.style = 0;
-        auto ns = [&]() {
-            if (advNs && r.below(3) == 0) { hasAdvNs = true; return QString::fromLatin1(pick(r, NSADV)).replace(u"NAME"_qs, n.name); }
-            return QString::fromLatin1(pick(r, NSPOOL)); };
+        auto ns = [&]() { return QString::fromLatin1(pick(r, NSPOOL)); };
         auto textKid = [&](const QString &v) { Nd t; t.text = true; t.txt = v; nodes++; return t; };
         switch (n.style) {
         case 1: n.kids.push_back(textKid(payload("text"))); break;
@@ -270,15 +268,15 @@ static void oracleTree(const Nd &root, const QByteArray &bytes, bool legal, cons
     else oraclePass()++;
 }
 
-static void runTree(Rng &r, bool advNs, int idx) {
-    Gen g{ r, advNs };
+static void runTree(Rng &r, int idx) {
+    Gen g{ r };
     Nd root = g.elem(0);
     QByteArray bytes; { QXmlStreamWriter w(&bytes); writeNd(w, root, r); }
     std::string enc = encRaw(root);
     corr("xml-render " + enc, hexB(bytes));
     corr("xml-render-parse " + enc, canonOfXml(bytes));
     corr("xml-parse-plain " + hexB(bytes), canonPlain(bytes));
-    stat(advNs ? "tree.adversarial_ns.total" : "tree.total");
+    stat("tree.total");
     stat("tree.nodes", g.nodes); stat("tree.bytes", bytes.size());
     stat("tree.depth_" + std::to_string(g.maxDepth));
     stat(g.nodes <= 3 ? "tree.size_1_3" : g.nodes <= 10 ? "tree.size_4_10" : g.nodes <= 30 ? "tree.size_11_30" : "tree.size_gt_30");
@@ -287,6 +285,41 @@ static void runTree(Rng &r, bool advNs, int idx) {
     if (!plain) stat("tree.with_breaking_ns_value");
     oracleTree(root, bytes, g.legal, plain ? "tree" : "xmlns", "tree#" + std::to_string(idx) + " " + enc.substr(0, 400));
     if (idx < 2) sample("tree " + enc.substr(0, 200) + " => " + bytes.left(200).toPercentEncoding(" <>&;#\"=/':").toStdString());
+}
+
+// data-valued namespaces, attributes and text as the library's own generic element writes them (QXmppElement::toXml:
+// xmlns through writeDefaultNamespace, the other attributes in key order through writeOptionalXmlAttribute, value, children)
+struct QxGen {
+    Rng &r; int nodes = 0; bool legal = true, breaking = false;
+    QString payload(const char *ctx) { QString s = genStr(r); strStats(s, ctx); if (!allLegal(s)) legal = false; return s; }
+    std::pair<QXmppElement, Nd> elem(int depth) {
+        QXmppElement e; Nd n; nodes++;
+        n.name = QString::fromLatin1(pick(r, ENAMES)); e.setTagName(n.name);
+        if (r.below(3)) {
+            QString v = r.below(6) == 0 ? QString::fromLatin1(pick(r, NSADV)).replace(u"NAME"_qs, n.name) : QString::fromLatin1(pick(r, NSPOOL));
+            if (v.contains(u'"') || v.contains(u'<') || v.contains(u'&')) breaking = true;
+            e.setAttribute(u"xmlns"_qs, v); n.attrs.emplace_back(u"xmlns"_qs, v);
+        }
+        QMap<QString, QString> as; QStringList used; int na = r.below(4);
+        for (int i = 0; i < na; i++) { QString k = QString::fromLatin1(pick(r, ANAMES)); if (used.contains(localName(k))) continue; used << localName(k); as[k] = payload("attr"); }
+        for (auto it = as.begin(); it != as.end(); ++it) { e.setAttribute(it.key(), it.value()); if (!it.value().isEmpty()) n.attrs.emplace_back(it.key(), it.value()); }
+        if (r.coin()) { QString v = payload("text"); e.setValue(v); if (!v.isEmpty()) { Nd t; t.text = true; t.txt = v; n.kids.push_back(t); nodes++; } }
+        int nk = depth >= 3 ? 0 : r.below(4);
+        for (int i = 0; i < nk; i++) { auto c = elem(depth + 1); e.appendChild(c.first); n.kids.push_back(c.second); }
+        return { e, n };
+    }
+};
+static void runQxTree(Rng &r, int idx) {
+    QxGen g{ r };
+    auto en = g.elem(0);
+    QByteArray bytes; { QXmlStreamWriter w(&bytes); en.first.toXml(&w); }
+    std::string enc = encRaw(en.second);
+    corr("xml-render " + enc, hexB(bytes));
+    corr("xml-render-parse " + enc, canonOfXml(bytes));
+    corr("xml-parse-plain " + hexB(bytes), canonPlain(bytes));
+    stat("qxelement.total"); stat("qxelement.nodes", g.nodes);
+    if (g.breaking) stat("qxelement.with_breaking_ns_value");
+    oracleTree(en.second, bytes, g.legal, g.breaking ? "xmlns" : "tree", "QXmppElement#" + std::to_string(idx) + " " + enc.substr(0, 400));
 }
 
 // ------------------------------------------------------------------ single payloads: every way a string reaches the writer
@@ -315,7 +348,9 @@ static void runString(const QString &s, int idx, bool doOracle) {
         { "text-helper", [&](QXmlStreamWriter &w) { w.writeStartElement(u"p"_qs); writeXmlTextElement(&w, u"a", s); w.writeEndElement(); }, wrap(el("a", {}, &s)) },
         { "attr-helper", [&](QXmlStreamWriter &w) { w.writeStartElement(u"p"_qs); w.writeStartElement(u"a"_qs); writeOptionalXmlAttribute(&w, u"k", s); w.writeEndElement(); w.writeEndElement(); },
           wrap(s.isEmpty() ? el("a", {}, nullptr) : el("a", { { u"k"_qs, s } }, nullptr)) },
-        { "xmlns", [&](QXmlStreamWriter &w) { w.writeStartElement(u"p"_qs); writeXmlTextElement(&w, u"a", s, u"t"); w.writeEndElement(); }, wrap(el("a", { { u"xmlns"_qs, s } }, &tee)) },
+        // a data-valued namespace: the library's generic element (QXmppElement::toXml)
+        { "xmlns", [&](QXmlStreamWriter &w) { w.writeStartElement(u"p"_qs); QXmppElement e; e.setTagName(u"a"_qs); e.setAttribute(u"xmlns"_qs, s); e.setValue(tee); e.toXml(&w); w.writeEndElement(); },
+          wrap(el("a", { { u"xmlns"_qs, s } }, &tee)) },
     };
     for (auto &wy : ways) {
         QByteArray b; { QXmlStreamWriter w(&b); wy.f(w); }
@@ -405,6 +440,21 @@ int main(int argc, char **argv) {
     for (uint c : BOUND) { fixed.push_back(fromCps({ c })); fixed.push_back(fromCps({ 'x', c, '<' })); }
     for (uint c = 0; c < 0x21; c++) fixed.push_back(fromCps({ 'a', c, 'b' }));
     for (auto &s : fixed) { strStats(s, "fixed"); runString(s, idx++, true); }
+    // the blank-text rule, deterministically: every white-space / near-white-space / boundary character as the only text of an
+    // element, after an element child, and next to a letter
+    {
+        std::vector<uint> cs; for (uint c : SPACES) cs.push_back(c); for (uint c : NEARSPACE) cs.push_back(c); for (uint c : BOUND) cs.push_back(c);
+        for (uint c : cs) for (int form = 0; form < 3; form++) {
+            Nd root; root.name = u"a"_qs; Nd t; t.text = true; t.txt = form == 2 ? fromCps({ c, 'x', c }) : fromCps({ c });
+            if (form == 1) { Nd b; b.name = u"b"_qs; root.kids.push_back(b); }
+            root.kids.push_back(t);
+            QByteArray bytes; { QXmlStreamWriter w(&bytes); writeNd(w, root, rng); }
+            std::string enc = encRaw(root);
+            corr("xml-render " + enc, hexB(bytes)); corr("xml-render-parse " + enc, canonOfXml(bytes)); corr("xml-parse-plain " + hexB(bytes), canonPlain(bytes));
+            stat("tree.blank_rule_cases");
+            oracleTree(root, bytes, allLegal(t.txt), "tree", "blank-rule U+" + QString::number(c, 16).toStdString() + " form " + std::to_string(form));
+        }
+    }
     // exhaustive: all strings up to length 3 (quick) / 4 (thorough) over the metacharacter alphabet  < > & " ' ] ; # TAB CR
     {
         const uint A[] = { '<', '>', '&', '"', '\'', ']', ';', '#', 9, 13 };
@@ -432,16 +482,19 @@ int main(int argc, char **argv) {
     for (int i = 0; i < nRef; i++) parseDoc(refDoc(rng), "references");
     // 4. random trees through the real writer; mutated (malformed) documents
     int nTree = thorough ? 30000 : 2000;
-    for (int i = 0; i < nTree; i++) runTree(rng, false, i);
-    for (int i = 0; i < nTree / 4; i++) runTree(rng, true, nTree + i);
+    for (int i = 0; i < nTree; i++) runTree(rng, i);
+    for (int i = 0; i < nTree / 4; i++) runQxTree(rng, nTree + i);
     for (int i = 0; i < nTree / 2; i++) {
-        Gen g{ rng, false }; Nd root = g.elem(0);
+        Gen g{ rng }; Nd root = g.elem(0);
         QByteArray bytes; { QXmlStreamWriter w(&bytes); writeNd(w, root, rng); }
         mutations(rng, bytes);
     }
     // 5. Qt writes NAMES verbatim as well (recorded, not an oracle: names are not field values)
     { QByteArray b; { QXmlStreamWriter w(&b); w.writeStartElement(u"a b=\"1\""_qs); w.writeAttribute(u"k=\"1\" j"_qs, u"v"_qs); w.writeEndElement(); }
       stat("qt.names_written_verbatim", b == "<a b=\"1\" k=\"1\" j=\"v\"/>" ? 1 : 0); sample("names are not escaped by Qt: " + b.toStdString()); }
+    // Qt's namespace primitives do not escape either (recorded; the oracle judges the library's own data-valued uses)
+    { QByteArray b; { QXmlStreamWriter w(&b); w.writeStartElement(u"a"_qs); w.writeDefaultNamespace(u"u\"><b/>&"_qs); w.writeNamespace(u"v\"<"_qs, u"p"_qs); w.writeEndElement(); }
+      stat("qt.namespace_uri_written_verbatim", b == "<a xmlns=\"u\"><b/>&\" xmlns:p=\"v\"<\"/>" ? 1 : 0); sample("namespace URIs are not escaped by Qt: " + b.toStdString()); }
     // 6. the recorded finding on qxmpp's own serializers
     replayXmlnsFinding();
     finish();
